@@ -13,6 +13,7 @@ open Nima.C05
 #print axioms specSet_nodup
 #print axioms specRemove_nodup
 #print axioms keys_preserved
+#print axioms rendered_eq_denote_values
 #print axioms docNestedFamily_wf
 #print axioms cex_nested_family
 #print axioms cex_rendered_follows
